@@ -203,10 +203,15 @@ def _variant_value_blocks(fn, local, depth=3):
     """{variant name: [blocks]} where an enum-typed local is assigned an aggregate of that variant (directly or by copying another
     such local); None if it has any other definition"""
     out = {}
-    if _call_defs(fn).get(local):
-        return None
+    for c in _call_defs(fn).get(local, []):
+        # the error path of `?` builds the failure value: it never contributes a `Some` / `Ok`
+        if short(c.name).endswith("::from_residual"):
+            out.setdefault("None", []).append(c.bb)
+            out.setdefault("Err", []).append(c.bb)
+        else:
+            return None
     defs = _assign_defs(fn).get(local, [])
-    if not defs:
+    if not defs and not out:
         return None
     for (b, st) in defs:
         if st["pl"]["p"]:
